@@ -89,7 +89,7 @@ Fields == [
   cab |-> {"hdr.cbCabinet", "hdr.coffFiles", "hdr.cFolders", "hdr.cFiles", "hdr.cbCFHeader", "sig.offset", "sig.size"},
   apkblock |-> {"blk.sizeTail", "blk.sizeHead", "blk.pairLen", "blk.signersLen", "blk.signerLen", "blk.signedDataLen", "eocd.cdOffset"},
   macho |-> {"hdr.ncmds", "hdr.sizeofcmds", "lc.cmdsize", "cs.dataoff", "cs.datasize", "sb.length", "sb.count", "sb.blobOffset", "cd.length", "cd.hashOffset", "cd.nCodeSlots", "cd.identOffset"},
-  xar |-> {"hdr.size", "hdr.tocLenZ", "hdr.tocLen"},
+  xar |-> {"hdr.size", "hdr.tocLenZ", "hdr.tocLen", "toc.checksumSize", "toc.sigOffset", "toc.sigSize", "toc.xsigSize", "toc.xsigOffset", "toc.dataLength", "toc.dataOffset", "toc.dataSize"},
   dmg |-> {"koly.dataForkLen", "koly.xmlOffset", "koly.xmlLength", "koly.sigOffset", "koly.sigLength"},
   deb |-> {"ar.size0", "ar.size1", "ar.sizeLast"},
   rpm |-> {"sig.nindex", "sig.hsize", "hdr.nindex", "hdr.hsize", "idx.offset", "idx.count"},
